@@ -2,6 +2,7 @@ package symex
 
 import (
 	"fmt"
+	"os"
 	"math/big"
 	"runtime/debug"
 	"sort"
@@ -131,6 +132,9 @@ func (in *Interp) branch(c *smt.Term) bool {
 	}
 	if len(p.trace) >= in.P.MaxDecisions {
 		panic(unsupported{"decision depth limit"})
+	}
+	if traceBranches {
+		fmt.Fprintf(os.Stderr, "BRANCH #%d at %s\n", len(p.trace), in.curLoc())
 	}
 	canT, canF := true, true
 	switch p.sess.CheckPop(c) {
@@ -525,6 +529,13 @@ func (e *Explorer) worker() {
 		return
 	}
 	defer sess.Close()
+	if d := os.Getenv("BHS_SMTLOG"); d != "" {
+		f, _ := os.Create(fmt.Sprintf("%s/worker-%p.smt2", d, sess))
+		if f != nil {
+			sess.Log = f
+			defer f.Close()
+		}
+	}
 	first := true
 	for {
 		pfx, ok := e.pop()
@@ -771,4 +782,13 @@ func traceString(tr []Decision) string {
 		}
 	}
 	return sb.String()
+}
+
+var traceBranches = os.Getenv("BHS_TRACE") != ""
+
+func (in *Interp) curLoc() string {
+	if in.curFrame == nil || in.curFrame.fn == nil {
+		return "?"
+	}
+	return in.curFrame.fn.String() + in.where(nil, in.curPos)
 }
